@@ -20,8 +20,13 @@ import (
 	"encoding/json"
 	"encoding/pem"
 	"fmt"
+	"hash/fnv"
 	"math/big"
 	"math/rand"
+	"os"
+	"os/exec"
+	"path/filepath"
+	"regexp"
 	"sort"
 	"strings"
 	"sync"
@@ -29,6 +34,7 @@ import (
 
 	"github.com/caddyserver/certmagic"
 	"github.com/mholt/acmez/v3/acme"
+	"github.com/zeebo/blake3"
 	"golang.org/x/crypto/ocsp"
 
 	"verifharness/pkg/doubles"
@@ -41,7 +47,9 @@ type c12Info = certmagic.VerifCertInfo
 
 // c12Op is a concrete operation on the implementation (JSON: replay files).
 type c12Op struct {
-	Kind     string      `json:"kind"` // add rmcert replace remove rmmanaged hsmaint ari ocspmaint
+	Kind     string      `json:"kind"` // add rmcert replace remove rmmanaged hsmaint ari ocspmaint renewmaint setcap query stop (stress only: lookup handshake)
+	Capz     *int64      `json:"capz,omitempty"` // setcap: CacheOptions.Capacity
+	Name     string      `json:"name,omitempty"` // query
 	Cert     *c12Info    `json:"cert,omitempty"`
 	New      *c12Info    `json:"new,omitempty"`
 	Hashes   []string    `json:"hashes,omitempty"`
@@ -93,6 +101,60 @@ type c12Env struct {
 	hello      *tls.ClientHelloInfo
 	closeHello func()
 	feat       map[string]int // features of the current history
+	interval   time.Duration  // RenewCheckInterval / OCSPCheckInterval of the cache (0: defaults)
+	stopped    bool           // Cache.Stop was called on this environment's cache
+	rec        *c12Recorder // what the ConfigGetter was shown while recording
+}
+
+// c12Recorder is shared by the ConfigGetter closure and the environment (which is replaced
+// field-wise after a panic / a Stop).
+type c12Recorder struct {
+	mu  sync.Mutex
+	on  bool
+	log []c12Seen
+	cfg *certmagic.Config
+}
+
+// c12Seen is one call of the ConfigGetter (CacheOptions.GetConfigForCert).
+type c12Seen struct {
+	Hash string   `json:"hash"`
+	Tags []string `json:"tags"`
+}
+
+// ---- storage keys computed independently of certmagic.StorageKeys (standard library only) ----
+var c12SafeStrip = regexp.MustCompile(`[^a-zA-Z0-9_@.-]`)
+
+func c12Safe(s string) string {
+	s = strings.TrimSpace(strings.ToLower(s))
+	s = strings.NewReplacer(" ", "_", "+", "_plus_", "*", "wildcard_", ":", "-", "..", "").Replace(s)
+	s = c12SafeStrip.ReplaceAllLiteralString(s, "")
+	return strings.ReplaceAll(s, "..", "")
+}
+
+func c12OCSPKey(names []string, pemBundle []byte) string {
+	h := fnv.New32a()
+	h.Write(pemBundle)
+	k := fmt.Sprintf("%x", h.Sum32())
+	if len(names) > 0 {
+		k = c12Safe(names[0]) + "-" + k
+	}
+	return "ocsp/" + k
+}
+
+func c12MetaKey(issuer, name string) string {
+	return "certificates/" + c12Safe(issuer) + "/" + c12Safe(name) + "/" + c12Safe(name) + ".json"
+}
+
+// oracle bookkeeping across all environments of a run
+var c12Oracle struct {
+	mu        sync.Mutex
+	keys      int
+	keyBad    []string
+	stops     int
+	stopBad   []string
+	raceNote  string
+	raceBad   string
+	raceRan   bool
 }
 
 var c12PoolDef = []c12Info{
@@ -103,7 +165,7 @@ var c12PoolDef = []c12Info{
 	{Hash: "h5", Names: []string{"a.x"}, Managed: true, IssuerKey: "i2"},
 	{Hash: "h6", Names: []string{"c.x", "*.x"}},
 	{Hash: "h7", Names: []string{"d.y", "a.x", "*.b.x"}, Managed: true, IssuerKey: "i1"},
-	{Hash: "h8", Names: []string{"*.*.x", "a.x", "a.x"}},
+	{Hash: "h8", Names: []string{"*.*.x", "a.x", "a.x", "*.*"}},
 }
 
 // which pool certificates have a fresh OCSP staple / newer ARI in storage
@@ -121,61 +183,128 @@ func c12PoolByHash(h string) *c12Info {
 	return nil
 }
 
-func newC12Env() (*c12Env, error) {
-	env := &c12Env{backend: doubles.NewMemBackend(), chains: map[string]tls.Certificate{}, pems: map[string][]byte{}, ariCounter: new(int)}
-	ca := doubles.NewCA("c12 CA")
+func newC12Env() (*c12Env, error) { return newC12EnvI(0) }
+
+// newC12EnvI: interval > 0 makes the cache's own maintenance goroutine run its passes
+// (RenewManagedCertificates, updateOCSPStaples) at that interval.
+func newC12EnvI(interval time.Duration) (*c12Env, error) {
+	env := &c12Env{backend: doubles.NewMemBackend(), chains: map[string]tls.Certificate{}, pems: map[string][]byte{}, ariCounter: new(int), interval: interval}
 	st := env.backend.Handle("c12")
-	cfg, cache := doubles.NewConfig(st, certmagic.Config{DisableARI: false}, certmagic.CacheOptions{},
+	rec := &c12Recorder{}
+	env.rec = rec
+	env.getter = func(c certmagic.Certificate) (*certmagic.Config, error) {
+		rec.mu.Lock()
+		defer rec.mu.Unlock()
+		if rec.on {
+			rec.log = append(rec.log, c12Seen{c.Hash(), append([]string{}, c.Tags...)})
+		}
+		return rec.cfg, nil
+	}
+	cfg, cache := doubles.NewConfig(st, certmagic.Config{DisableARI: false},
+		certmagic.CacheOptions{GetConfigForCert: env.getter, RenewCheckInterval: interval, OCSPCheckInterval: interval},
 		ariIssuer{"i1", env.ariCounter, &env.mu}, ariIssuer{"i2", env.ariCounter, &env.mu})
 	env.cfg, env.cache = cfg, cache
-	env.getter = func(certmagic.Certificate) (*certmagic.Config, error) { return cfg, nil }
+	rec.mu.Lock()
+	rec.cfg = cfg
+	rec.mu.Unlock()
 	env.hello, env.closeHello = doubles.Hello("a.x")
-	now := time.Now()
-	for _, p := range c12PoolDef {
-		chainPEM, leaf, keyPEM, err := ca.Leaf(doubles.LeafOpts{Names: []string{"pool-" + p.Hash + ".example"}})
-		if err != nil {
-			return nil, err
-		}
-		tc, err := tls.X509KeyPair(chainPEM, keyPEM)
-		if err != nil {
-			return nil, err
-		}
-		tc.Leaf = leaf
-		env.chains[p.Hash] = tc
-		// the PEM bundle exactly as stapleOCSP re-encodes it
-		var b bytes.Buffer
-		for _, der := range tc.Certificate {
-			pem.Encode(&b, &pem.Block{Type: "CERTIFICATE", Bytes: der})
-		}
-		env.pems[p.Hash] = b.Bytes()
-		c := env.mk(p)
-		if serial, ok := c12Staple[p.Hash]; ok {
-			resp, err := ocsp.CreateResponse(ca.Cert, ca.Cert, ocsp.Response{Status: ocsp.Good, SerialNumber: big.NewInt(serial),
-				ThisUpdate: now.Add(-time.Hour), NextUpdate: now.Add(48 * time.Hour)}, ca.Key)
+	c12Proto.mu.Lock()
+	defer c12Proto.mu.Unlock()
+	if c12Proto.chains == nil {
+		// the certificates, staples and metadata are made once per run and shared by all environments
+		ca := doubles.NewCA("c12 CA")
+		chains, pems, store := map[string]tls.Certificate{}, map[string][]byte{}, map[string][]byte{}
+		now := time.Now()
+		for _, p := range c12PoolDef {
+			chainPEM, leaf, keyPEM, err := ca.Leaf(doubles.LeafOpts{Names: []string{"pool-" + p.Hash + ".example"}})
 			if err != nil {
 				return nil, err
 			}
-			env.backend.Put(certmagic.StorageKeys.OCSPStaple(&c, env.pems[p.Hash]), resp)
+			tc, err := tls.X509KeyPair(chainPEM, keyPEM)
+			if err != nil {
+				return nil, err
+			}
+			tc.Leaf = leaf
+			chains[p.Hash] = tc
+			// the PEM bundle exactly as stapleOCSP re-encodes it
+			var b bytes.Buffer
+			for _, der := range tc.Certificate {
+				pem.Encode(&b, &pem.Block{Type: "CERTIFICATE", Bytes: der})
+			}
+			pems[p.Hash] = b.Bytes()
+			c := certmagic.VerifMakeCert(p, tc)
+			if serial, ok := c12Staple[p.Hash]; ok {
+				resp, err := ocsp.CreateResponse(ca.Cert, ca.Cert, ocsp.Response{Status: ocsp.Good, SerialNumber: big.NewInt(serial),
+					ThisUpdate: now.Add(-time.Hour), NextUpdate: now.Add(48 * time.Hour)}, ca.Key)
+				if err != nil {
+					return nil, err
+				}
+				key := c12OCSPKey(p.Names, pems[p.Hash])
+				c12CheckKey(key, certmagic.StorageKeys.OCSPStaple(&c, pems[p.Hash]))
+				store[key] = resp
+			}
+			if c12Meta[p.Hash] {
+				ra := now.Add(time.Hour)
+				data, _ := json.Marshal(acme.Certificate{RenewalInfo: &acme.RenewalInfo{ExplanationURL: "s" + p.Hash, RetryAfter: &ra}})
+				res, _ := json.Marshal(certmagic.CertificateResource{SANs: p.Names, IssuerData: data})
+				key := c12MetaKey(p.IssuerKey, p.Names[0])
+				c12CheckKey(key, certmagic.StorageKeys.SiteMeta(p.IssuerKey, p.Names[0]))
+				store[key] = res
+			}
 		}
-		if c12Meta[p.Hash] {
-			ra := now.Add(time.Hour)
-			data, _ := json.Marshal(acme.Certificate{RenewalInfo: &acme.RenewalInfo{ExplanationURL: "s" + p.Hash, RetryAfter: &ra}})
-			res, _ := json.Marshal(certmagic.CertificateResource{SANs: p.Names, IssuerData: data})
-			env.backend.Put(certmagic.StorageKeys.SiteMeta(p.IssuerKey, p.Names[0]), res)
-		}
+		c12Proto.chains, c12Proto.pems, c12Proto.store = chains, pems, store
+	}
+	env.chains, env.pems = c12Proto.chains, c12Proto.pems
+	for k, v := range c12Proto.store {
+		env.backend.Put(k, v)
 	}
 	return env, nil
 }
 
+var c12Proto struct {
+	mu     sync.Mutex
+	chains map[string]tls.Certificate
+	pems   map[string][]byte
+	store  map[string][]byte
+}
+
+// c12CheckKey records whether certmagic's own key builder agrees with the independently computed key
+// (the harness places staples / metadata under ITS key; the code looks them up under the code's).
+func c12CheckKey(mine, theirs string) {
+	c12Oracle.mu.Lock()
+	defer c12Oracle.mu.Unlock()
+	c12Oracle.keys++
+	if mine != theirs && len(c12Oracle.keyBad) < 5 {
+		c12Oracle.keyBad = append(c12Oracle.keyBad, fmt.Sprintf("independent %q, StorageKeys %q", mine, theirs))
+	}
+}
+
 func (env *c12Env) close() {
 	env.closeHello()
-	env.cache.Stop()
+	if !env.stopped {
+		env.stopped = true
+		env.cache.Stop()
+	}
+}
+
+func (env *c12Env) options(capacity int) certmagic.CacheOptions {
+	return certmagic.CacheOptions{GetConfigForCert: env.getter, Capacity: capacity, Logger: env.cfg.Logger,
+		RenewCheckInterval: env.interval, OCSPCheckInterval: env.interval}
+}
+
+func (env *c12Env) record(on bool) []c12Seen {
+	env.rec.mu.Lock()
+	defer env.rec.mu.Unlock()
+	log := env.rec.log
+	env.rec.log, env.rec.on = nil, on
+	sort.Slice(log, func(i, j int) bool { return log[i].Hash < log[j].Hash })
+	return log
 }
 
 func (env *c12Env) reset(capacity int) {
 	env.cap = capacity
-	env.cache.SetOptions(certmagic.CacheOptions{GetConfigForCert: env.getter, Capacity: capacity, Logger: env.cfg.Logger})
 	env.cache.VerifReset()
+	env.cache.SetOptions(env.options(capacity))
 	env.backend.Log.Hook = nil
 	env.backend.Log.Ops = nil
 	*env.ariCounter = 0
@@ -201,8 +330,7 @@ func (env *c12Env) stapleSerial(i c12Info) (int64, bool) {
 	if _, ok := env.chains[i.Hash]; !ok {
 		return 0, false
 	}
-	c := env.mk(i)
-	if _, ok := env.backend.Get(certmagic.StorageKeys.OCSPStaple(&c, env.pems[i.Hash])); !ok {
+	if _, ok := env.backend.Get(c12OCSPKey(i.Names, env.pems[i.Hash])); !ok {
 		return 0, false
 	}
 	// the serial stored under that key (two pool certificates never share a key)
@@ -214,7 +342,7 @@ func (env *c12Env) hasMeta(i c12Info) bool {
 	if len(i.Names) == 0 {
 		return false
 	}
-	_, ok := env.backend.Get(certmagic.StorageKeys.SiteMeta(i.IssuerKey, i.Names[0]))
+	_, ok := env.backend.Get(c12MetaKey(i.IssuerKey, i.Names[0]))
 	return ok
 }
 
@@ -309,6 +437,7 @@ func (env *c12Env) exec(op *c12Op) (steps []c12Step, err error) {
 			}
 			steps = append(steps, in...)
 			env.feat["interleaved"]++
+			env.countStaleVsUpdate(op.Inner, cached)
 			return nil
 		}
 	}
@@ -454,10 +583,15 @@ func (env *c12Env) exec(op *c12Op) (steps []c12Step, err error) {
 			}
 		}
 		gate()
+		env.record(true)
 		env.cache.VerifUpdateOCSPStaples(context.Background())
+		seen := env.record(false)
 		if gerr := ungate(); gerr != nil {
 			return nil, gerr
 		}
+		// the scan came first (under the read lock, before any storage call): it is its own step
+		steps = append([]c12Step{c12ScanStep(false, seen, before)}, steps...)
+		env.feat["getter_calls"] += len(seen)
 		now := keySet(env.snapNoCount())
 		e := (&emit.Enc{}).Int(6).Len(len(expect))
 		var d []string
@@ -471,25 +605,189 @@ func (env *c12Env) exec(op *c12Op) (steps []c12Step, err error) {
 			}
 		}
 		emitStep(fmt.Sprintf("SetOCSP(%v)", d), e)
+	case "renewmaint":
+		// maintain.go RenewManagedCertificates: the scan shows every managed certificate to the
+		// ConfigGetter; then updateARI per certificate (no certificate of the pool is near expiry, so
+		// nothing is renewed or reloaded).  Every updateARI starts by taking the storage lock "ari_...":
+		// both maps are snapshotted there, i.e. between consecutive write-backs; the inner operation
+		// runs at the first one (after the scan, before the first write-back).
+		var snaps []c12Snap
+		fired := false
+		env.backend.Log.Hook = func(o *doubles.Op) error {
+			if o.Kind != "Lock" || !strings.HasPrefix(o.Key, "ari_") {
+				return nil
+			}
+			if !fired {
+				fired = true
+				if op.Inner != nil {
+					hook := env.backend.Log.Hook
+					env.backend.Log.Hook = nil
+					r := env.rec
+					r.mu.Lock()
+					was, kept := r.on, r.log
+					r.on = false
+					r.mu.Unlock()
+					in, ierr := env.exec(op.Inner)
+					r.mu.Lock()
+					r.on, r.log = was, kept
+					r.mu.Unlock()
+					if ierr != nil {
+						innerErr = ierr
+					}
+					steps = append(steps, in...)
+					env.feat["interleaved"]++
+					env.countStaleVsUpdate(op.Inner, cached)
+					env.backend.Log.Hook = hook
+				}
+			}
+			snaps = append(snaps, env.snap())
+			return nil
+		}
+		env.record(true)
+		rerr := env.cache.RenewManagedCertificates(context.Background())
+		seen := env.record(false)
+		if gerr := ungate(); gerr != nil {
+			return nil, gerr
+		}
+		if rerr != nil {
+			return nil, fmt.Errorf("RenewManagedCertificates: %v", rerr)
+		}
+		steps = append([]c12Step{c12ScanStep(true, seen, before)}, steps...)
+		env.feat["getter_calls"] += len(seen)
+		snaps = append(snaps, env.snap())
+		for k := 1; k < len(snaps); k++ {
+			prev, cur := snaps[k-1], snaps[k]
+			// the write-back between the two snapshots: the certificate whose ARI differs (if any)
+			h, v := "", ""
+			pm := map[string]c12Info{}
+			for _, ci := range prev.Certs {
+				pm[ci.Hash] = ci
+			}
+			for _, ci := range cur.Certs {
+				if pi, ok := pm[ci.Hash]; ok && pi.ARIURL != ci.ARIURL {
+					h, v = ci.Hash, ci.ARIURL
+				}
+			}
+			if h == "" {
+				env.feat["ari_pass_without_change"]++
+				continue
+			}
+			env.feat["writeback_applied"]++
+			e := (&emit.Enc{}).Int(7).Str(h).Str(v)
+			steps = append(steps, c12Step{Abs: fmt.Sprintf("SetARI(%s,%s) (renewal pass)", h, v), wire: e, Snap: cur})
+		}
+	case "setcap":
+		z := *op.Capz
+		env.cache.SetOptions(env.options(int(z)))
+		after := env.snap()
+		a := keySet(after)
+		victims := []string{}
+		for _, k := range before.Keys {
+			if !a[k] {
+				victims = append(victims, k)
+			}
+		}
+		capObs := env.cache.VerifCapacity()
+		if len(victims) > 0 {
+			env.feat["trim"]++
+			env.feat["trim_evicted"] += len(victims)
+		}
+		if z > 0 && int(z) < len(before.Keys) {
+			env.feat["capacity_lowered_below_size"]++
+		}
+		env.feat["setcap"]++
+		e := (&emit.Enc{}).Int(9).Z(z).StrList(victims).Int(capObs)
+		emitStep(fmt.Sprintf("SetOptions(Capacity=%d) evicted=%v capacity now %d", z, victims, capObs), e)
+	case "query":
+		hs := []string{}
+		for _, c := range env.cache.AllMatchingCertificates(op.Name) {
+			hs = append(hs, c.Hash())
+		}
+		if len(hs) > 0 {
+			env.feat["query_hit"]++
+		} else {
+			env.feat["query_miss"]++
+		}
+		e := (&emit.Enc{}).Int(10).Str(op.Name).StrList(hs)
+		emitStep(fmt.Sprintf("AllMatchingCertificates(%q) = %v", op.Name, hs), e)
+	case "stop":
+		// Cache.Stop: the maintenance goroutine ends; both maps stay as they are; a stopped cache is
+		// never stopped again (the environment is replaced after the history)
+		if !env.stopped {
+			env.stopped = true
+			done := make(chan struct{})
+			go func() { env.cache.Stop(); close(done) }()
+			c12Oracle.mu.Lock()
+			c12Oracle.stops++
+			c12Oracle.mu.Unlock()
+			select {
+			case <-done:
+			case <-time.After(20 * time.Second):
+				c12Oracle.mu.Lock()
+				c12Oracle.stopBad = append(c12Oracle.stopBad, "Cache.Stop did not return within 20 s")
+				c12Oracle.mu.Unlock()
+			}
+		}
+		env.feat["stop"]++
+		emitStep("Stop()", (&emit.Enc{}).Int(11))
 	default:
 		return nil, fmt.Errorf("unknown op kind %q", op.Kind)
+	}
+	if env.stopped && op.Kind != "stop" {
+		env.feat["op_after_stop"]++
 	}
 	return steps, nil
 }
 
+// c12ScanStep: the scan of a maintenance pass as a step of its own: what the ConfigGetter was shown,
+// and the state the scan ran on.
+func c12ScanStep(renew bool, seen []c12Seen, at c12Snap) c12Step {
+	e := (&emit.Enc{}).Int(12).Bool(renew).Len(len(seen))
+	var d []string
+	for _, x := range seen {
+		e.Str(x.Hash).StrList(x.Tags)
+		d = append(d, fmt.Sprintf("%s%v", x.Hash, x.Tags))
+	}
+	name := "updateOCSPStaples"
+	if renew {
+		name = "RenewManagedCertificates"
+	}
+	return c12Step{Abs: fmt.Sprintf("scan of %s: getConfig saw %v", name, d), wire: e, Snap: at}
+}
+
 func (env *c12Env) snapNoCount() c12Snap { return env.snap() }
+
+// countStaleVsUpdate: the interleaving in which the outer operation's copy goes stale because the SAME
+// cached certificate is updated (tags merged by a re-add, or another write-back) before the outer write-back.
+func (env *c12Env) countStaleVsUpdate(in *c12Op, cachedBefore map[string]bool) {
+	switch in.Kind {
+	case "add":
+		if in.Cert != nil && cachedBefore[in.Cert.Hash] && len(in.Cert.Tags) > 0 {
+			env.feat["stale_copy_vs_tag_merge"]++
+		}
+	case "ari", "ocspmaint", "hsmaint", "renewmaint":
+		env.feat["stale_copy_vs_other_writeback"]++
+	}
+}
 
 // rebuild replaces the environment after an implementation panic (a mutex may be left locked).
 func (env *c12Env) rebuild(msg string) error {
-	n, err := newC12Env()
+	n, err := newC12EnvI(env.interval)
 	if err != nil {
 		return err
 	}
-	n.panics = append(env.panics, msg)
+	n.panics = env.panics
+	if msg != "" {
+		n.panics = append(env.panics, msg)
+	} else {
+		// orderly replacement (the cache of this environment was stopped by the history)
+		env.closeHello()
+	}
+	env.stopped = false
 	// (field-wise: the struct holds a mutex)
 	env.backend, env.cfg, env.cache, env.getter = n.backend, n.cfg, n.cache, n.getter
 	env.ariCounter, env.chains, env.pems = n.ariCounter, n.chains, n.pems
-	env.hello, env.closeHello, env.panics = n.hello, n.closeHello, n.panics
+	env.hello, env.closeHello, env.panics, env.rec = n.hello, n.closeHello, n.panics, n.rec
 	return nil
 }
 
@@ -532,6 +830,19 @@ func (env *c12Env) execRaw(op *c12Op) {
 		for _, c := range env.cache.AllMatchingCertificates(op.Hashes[0]) {
 			_ = c.Hash()
 		}
+	case "query":
+		for _, c := range env.cache.AllMatchingCertificates(op.Name) {
+			_ = c.Hash()
+		}
+	case "setcap":
+		env.cache.SetOptions(env.options(int(*op.Capz)))
+	case "renewmaint":
+		env.cache.RenewManagedCertificates(context.Background())
+	case "handshake":
+		// a TLS handshake's lookup through the public entry point (cache hit, wildcard, or miss)
+		hello, closeHello := doubles.Hello(op.Name)
+		env.cfg.GetCertificate(hello)
+		closeHello()
 	}
 }
 
@@ -562,9 +873,36 @@ func (env *c12Env) runHist(w *emit.Writer, h c12Hist, class string) error {
 	env.reset(h.Cap)
 	var steps []c12Step
 	panicked := false
-	for _, phase := range h.Concurrent {
+	for pi, phase := range h.Concurrent {
+		if pi == len(h.Concurrent)-1 && env.interval > 0 {
+			// the last phase contains no explicit maintenance operation: every ConfigGetter call during
+			// it comes from the passes of the cache's own maintenance goroutine
+			env.record(true)
+		}
 		env.runPhase(phase)
-		steps = append(steps, c12Step{Abs: fmt.Sprintf("concurrent phase (%d goroutines)", len(phase)), wire: (&emit.Enc{}).Int(8), Snap: env.snap()})
+		abs := fmt.Sprintf("concurrent phase (%d goroutines)", len(phase))
+		if pi == len(h.Concurrent)-1 && env.interval > 0 && !env.stopped {
+			// the cache's own maintenance goroutine has been running its passes all along: stop it
+			// (really: Cache.Stop) so that the state observed next is final
+			env.feat["getter_calls_by_own_maintenance"] += len(env.record(false))
+			env.stopped = true
+			done := make(chan struct{})
+			go func() { env.cache.Stop(); close(done) }()
+			c12Oracle.mu.Lock()
+			c12Oracle.stops++
+			c12Oracle.mu.Unlock()
+			select {
+			case <-done:
+			case <-time.After(60 * time.Second):
+				c12Oracle.mu.Lock()
+				c12Oracle.stopBad = append(c12Oracle.stopBad, "Cache.Stop did not return within 60 s after a concurrent phase")
+				c12Oracle.mu.Unlock()
+			}
+			abs += ", then Stop()"
+			env.feat["stop"]++
+		}
+		capObs := env.cache.VerifCapacity()
+		steps = append(steps, c12Step{Abs: fmt.Sprintf("%s; capacity now %d", abs, capObs), wire: (&emit.Enc{}).Int(8).Int(capObs), Snap: env.snap()})
 		env.feat["concurrent_phase"]++
 		for _, l := range phase {
 			env.feat["concurrent_ops"] += len(l)
@@ -621,9 +959,10 @@ func (env *c12Env) runHist(w *emit.Writer, h c12Hist, class string) error {
 		}
 	}
 	nt := env.feat["evict"]+env.feat["remove_hit"]+env.feat["tagmerge"]+env.feat["writeback_applied"]+
-		env.feat["writeback_refused_stale"]+env.feat["replace_stale_old"]+env.feat["concurrent_phase"] > 0
+		env.feat["writeback_refused_stale"]+env.feat["replace_stale_old"]+env.feat["concurrent_phase"]+
+		env.feat["trim"]+env.feat["query_hit"]+env.feat["getter_calls"]+env.feat["op_after_stop"] > 0
 	desc := map[string]any{"class": class, "cap": h.Cap, "len": len(steps)}
-	for _, k := range []string{"evict", "tagmerge", "writeback_refused_stale", "interleaved"} {
+	for _, k := range []string{"evict", "tagmerge", "writeback_refused_stale", "interleaved", "trim", "capacity_lowered_below_size", "stop", "getter_calls"} {
 		if env.feat[k] > 0 {
 			desc[k] = env.feat[k]
 		}
@@ -638,6 +977,14 @@ func (env *c12Env) runHist(w *emit.Writer, h c12Hist, class string) error {
 	}
 	if len(steps) > 0 {
 		w.Hist(fmt.Sprintf("final_size=%d", len(steps[len(steps)-1].Snap.Keys)))
+	}
+	if env.stopped && !panicked {
+		// a stopped cache cannot be stopped (or used for another history) again
+		feat := env.feat
+		if err := env.rebuild(""); err != nil {
+			return err
+		}
+		env.feat = feat
 	}
 	return nil
 }
@@ -680,8 +1027,28 @@ func c12Alphabet() []c12Op {
 		{Kind: "ari", Cert: c12P("h3"), Inner: &c12Op{Kind: "replace", Cert: c12P("h3"), New: c12P("h1")}},
 		{Kind: "ocspmaint"},
 		{Kind: "ocspmaint", Inner: rm("h2")},
+		// Cache.SetOptions changing the capacity at run time (unlimited, lowered, negative)
+		{Kind: "setcap", Capz: c12Z(0)},
+		{Kind: "setcap", Capz: c12Z(1)},
+		{Kind: "setcap", Capz: c12Z(2)},
+		{Kind: "setcap", Capz: c12Z(-3)},
+		// AllMatchingCertificates inside the history (exact + wildcard candidates; candidates only)
+		{Kind: "query", Name: "a.x"},
+		{Kind: "query", Name: "q.b.x"},
+		{Kind: "stop"},
+		// the renewal pass: scan with getConfig, then updateARI per managed certificate
+		{Kind: "renewmaint"},
+		{Kind: "renewmaint", Inner: &c12Op{Kind: "add", Cert: c12P("h2", "t5")}},
+		// stale copies against merged tags / other write-backs
+		{Kind: "hsmaint", Cert: stale, Inner: &c12Op{Kind: "add", Cert: c12P("h2", "t5")}},
+		{Kind: "hsmaint", Cert: stale, Inner: &c12Op{Kind: "ari", Cert: c12P("h2")}},
+		{Kind: "ocspmaint", Inner: &c12Op{Kind: "add", Cert: c12P("h2", "t5")}},
+		// updateARI through the issuer (second write-back site) with the certificate removed meanwhile
+		{Kind: "ari", Cert: c12P("h2"), Inner: rm("h2")},
 	}
 }
+
+func c12Z(v int64) *int64 { return &v }
 
 func c12RandHist(r *rand.Rand, env *c12Env) c12Hist {
 	caps := []int{0, 1, 2, 2, 3, 3, 4, 5}
@@ -712,11 +1079,11 @@ func c12RandHist(r *rand.Rand, env *c12Env) c12Hist {
 		switch x := r.Intn(100); {
 		case x < 45:
 			return c12Op{Kind: "add", Cert: poolCert()}
-		case x < 58:
+		case x < 56:
 			return c12Op{Kind: "rmcert", Cert: copyOf(sim)}
-		case x < 75:
+		case x < 70:
 			return c12Op{Kind: "replace", Cert: copyOf(sim), New: poolCert()}
-		case x < 90:
+		case x < 82:
 			var hs []string
 			for k := 1 + r.Intn(2); k > 0; k-- {
 				if r.Intn(5) == 0 {
@@ -726,6 +1093,10 @@ func c12RandHist(r *rand.Rand, env *c12Env) c12Hist {
 				}
 			}
 			return c12Op{Kind: "remove", Hashes: hs}
+		case x < 94:
+			return c12Op{Kind: "setcap", Capz: c12Z([]int64{0, 1, 2, 3, 4, 6, -1}[r.Intn(7)])}
+		case x < 97:
+			return c12Op{Kind: "query", Name: c12Queries[r.Intn(len(c12Queries))]}
 		default:
 			names := []string{"a.x", "b.x", "c.x", "*.x", "d.y", "nope"}
 			iss := []string{"", "", "i1", "i2"}
@@ -738,24 +1109,50 @@ func c12RandHist(r *rand.Rand, env *c12Env) c12Hist {
 	}
 	// the history is generated while it runs (copies are taken from the real current state)
 	env.reset(h.Cap)
+	stopAt := -1
+	if r.Intn(25) == 0 {
+		stopAt = r.Intn(n)
+	}
+	defer func() {
+		if env.stopped {
+			env.rebuild("")
+		}
+	}()
 	for i := 0; i < n; i++ {
 		sim := env.snap()
 		seen = append(seen, sim.Certs...)
 		var op c12Op
-		if x := r.Intn(100); x < 70 {
+		if i == stopAt {
+			op = c12Op{Kind: "stop"}
+		} else if x := r.Intn(100); x < 70 {
 			op = simple(&sim)
 		} else {
 			switch {
-			case x < 82:
+			case x < 80:
 				op = c12Op{Kind: "hsmaint", Cert: copyOf(&sim)}
-			case x < 92:
+			case x < 87:
 				op = c12Op{Kind: "ari", Cert: copyOf(&sim)}
-			default:
+			case x < 93:
 				op = c12Op{Kind: "ocspmaint"}
+			default:
+				op = c12Op{Kind: "renewmaint"}
 			}
-			if r.Intn(2) == 0 {
+			switch y := r.Intn(10); {
+			case y < 4:
 				in := simple(&sim)
 				op.Inner = &in
+			case y < 6 && len(sim.Certs) > 0:
+				// the interleaving that matters for stale copies: the same certificate is re-added with
+				// new tags, or gets another write-back, between the outer read and the outer write-back
+				c := sim.Certs[r.Intn(len(sim.Certs))]
+				if op.Cert != nil {
+					c = *op.Cert
+				}
+				c.Tags = []string{[]string{"t4", "t5", "t6"}[r.Intn(3)]}
+				op.Inner = &c12Op{Kind: "add", Cert: &c}
+			case y < 7 && op.Cert != nil:
+				c := *op.Cert
+				op.Inner = &c12Op{Kind: []string{"ari", "ocspmaint"}[r.Intn(2)], Cert: &c}
 			}
 		}
 		if _, err := env.exec(&op); err != nil {
@@ -777,6 +1174,7 @@ func c12RandHist(r *rand.Rand, env *c12Env) c12Hist {
 // hash (which must leave both maps empty).
 func c12StressHist(r *rand.Rand) c12Hist {
 	h := c12Hist{Cap: []int{0, 2, 3, 5}[r.Intn(4)]}
+	hsNames := []string{"a.x", "b.x", "q.x", "q.b.x", "d.y", "nope.z"}
 	tagsets := [][]string{nil, {"t1"}, {"t2", "t3"}}
 	pc := func() *c12Info {
 		p := c12PoolDef[r.Intn(len(c12PoolDef))]
@@ -799,14 +1197,20 @@ func c12StressHist(r *rand.Rand) c12Hist {
 					ops = append(ops, c12Op{Kind: "remove", Hashes: []string{c12PoolDef[r.Intn(len(c12PoolDef))].Hash, "zz"}})
 				case x < 74:
 					ops = append(ops, c12Op{Kind: "rmmanaged", Subjects: [][2]string{{[]string{"a.x", "b.x", "*.x"}[r.Intn(3)], ""}}})
-				case x < 82:
+				case x < 80:
 					ops = append(ops, c12Op{Kind: "hsmaint", Cert: pc()})
-				case x < 88:
+				case x < 84:
 					ops = append(ops, c12Op{Kind: "ari", Cert: pc()})
-				case x < 92:
+				case x < 87 && ph < 2:
 					ops = append(ops, c12Op{Kind: "ocspmaint"})
+				case x < 89 && ph < 2:
+					ops = append(ops, c12Op{Kind: "renewmaint"})
+				case x < 93:
+					ops = append(ops, c12Op{Kind: "setcap", Capz: c12Z([]int64{0, 1, 2, 3, 5, -1}[r.Intn(6)])})
+				case x < 96:
+					ops = append(ops, c12Op{Kind: "handshake", Name: hsNames[r.Intn(len(hsNames))]})
 				default:
-					ops = append(ops, c12Op{Kind: "lookup", Hashes: []string{c12Queries[r.Intn(len(c12Queries))]}})
+					ops = append(ops, c12Op{Kind: "query", Name: c12Queries[r.Intn(len(c12Queries))]})
 				}
 			}
 			phase = append(phase, ops)
@@ -829,8 +1233,42 @@ func runC12(tier string, seed int64, outdir string, replay string) error {
 	if err != nil {
 		return err
 	}
-	defer env.close()
-	w.Meta.Rule = "distinct histories (capacity + operation list) in which at least one eviction, removal of a cached certificate, tag merge, applied or refused (stale copy) write-back, or replacement of an already-removed certificate occurred"
+	defer func() { env.close() }()
+	w.Meta.Rule = "distinct histories (capacity + operation list) in which at least one eviction, removal of a cached certificate, tag merge, applied or refused (stale copy) write-back, replacement of an already-removed certificate, trim by SetOptions, non-empty AllMatchingCertificates answer, ConfigGetter call of a maintenance scan, or operation on a stopped cache occurred"
+	var panics []string
+	stress := func(r *rand.Rand, n int) error {
+		// free-running goroutines on a cache whose OWN maintenance goroutine runs its passes every
+		// millisecond (supporting: the lock discipline assumed by the model); each history gets its
+		// own Cache + Config because it ends with Cache.Stop
+		for i := 0; i < n; i++ {
+			senv, err := newC12EnvI(time.Millisecond)
+			if err != nil {
+				return err
+			}
+			err = senv.runHist(w, c12StressHist(r), "concurrent")
+			panics = append(panics, senv.panics...)
+			senv.close()
+			if err != nil {
+				return err
+			}
+		}
+		return nil
+	}
+	finish := func() {
+		panics = append(panics, env.panics...)
+		det := strings.Join(panics, "; ")
+		if len(det) > 400 {
+			det = det[:400]
+		}
+		w.Meta.Oracles = append(w.Meta.Oracles, emit.OracleCheck{Name: "no cache operation panicked", OK: len(panics) == 0, Detail: det})
+		c12Oracle.mu.Lock()
+		defer c12Oracle.mu.Unlock()
+		w.Meta.Oracles = append(w.Meta.Oracles,
+			emit.OracleCheck{Name: "storage keys computed independently (fnv32a / Safe re-implemented with the standard library) are the keys StorageKeys.OCSPStaple / SiteMeta build",
+				OK: len(c12Oracle.keyBad) == 0 && c12Oracle.keys > 0, Detail: fmt.Sprintf("%d keys compared; %s", c12Oracle.keys, strings.Join(c12Oracle.keyBad, "; "))},
+			emit.OracleCheck{Name: "Cache.Stop returned every time it was called",
+				OK: len(c12Oracle.stopBad) == 0, Detail: fmt.Sprintf("%d calls; %s", c12Oracle.stops, strings.Join(c12Oracle.stopBad, "; "))})
+	}
 	if replay != "" {
 		rc, err := loadReplay(replay)
 		if err != nil {
@@ -841,12 +1279,36 @@ func runC12(tier string, seed int64, outdir string, replay string) error {
 			return err
 		}
 		cl, _ := rc.Desc["class"].(string)
+		if len(h.Concurrent) > 0 {
+			senv, err := newC12EnvI(time.Millisecond)
+			if err != nil {
+				return err
+			}
+			defer senv.close()
+			return senv.runHist(w, h, cl)
+		}
 		return env.runHist(w, h, cl)
+	}
+	r := rand.New(rand.NewSource(seed))
+	if tier == "race" {
+		// special mode (see c12RacePhase): only the concurrent histories, in a -race build
+		if err := stress(r, 60); err != nil {
+			return err
+		}
+		finish()
+		return nil
+	}
+	if err := c12HashOracle(w); err != nil {
+		return err
 	}
 	// ---- corpus: witnesses of past findings and hand-picked orders ----
 	h2 := c12P("h2")
 	stale := c12P("h2")
 	stale.OCSPSerial = 1
+	staleT := c12P("h2", "t1")
+	staleT.OCSPSerial = 1
+	add := func(h string, tags ...string) c12Op { return c12Op{Kind: "add", Cert: c12P(h, tags...)} }
+	setcap := func(z int64) c12Op { return c12Op{Kind: "setcap", Capz: c12Z(z)} }
 	corpus := []struct {
 		class string
 		h     c12Hist
@@ -859,6 +1321,17 @@ func runC12(tier string, seed int64, outdir string, replay string) error {
 		{"corpus", c12Hist{Cap: 0, Ops: []c12Op{{Kind: "add", Cert: c12P("h3")}, {Kind: "ari", Cert: c12P("h3"), Inner: &c12Op{Kind: "rmcert", Cert: c12P("h3")}}}}},
 		{"corpus", c12Hist{Cap: 0, Ops: []c12Op{{Kind: "add", Cert: h2}, {Kind: "ocspmaint", Inner: &c12Op{Kind: "rmmanaged", Subjects: [][2]string{{"b.x", ""}}}}}}},
 		{"corpus", c12Hist{Cap: 2, Ops: []c12Op{{Kind: "add", Cert: c12P("h4", "t1")}, {Kind: "add", Cert: c12P("h8")}, {Kind: "add", Cert: c12P("h4", "t2")}, {Kind: "add", Cert: c12P("h1")}, {Kind: "remove", Hashes: []string{"h4", "h8", "h1"}}}}},
+		// fixed finding C12-capacity-lowered (4af396d): the witness of C12_within_capacity_refuted_when_lowered
+		{"capacity-lowered", c12Hist{Cap: 0, Ops: []c12Op{add("h1"), add("h2"), add("h3"), setcap(1), add("h4")}}},
+		{"capacity-lowered", c12Hist{Cap: 3, Ops: []c12Op{add("h1"), add("h2"), add("h3"), setcap(2), {Kind: "query", Name: "a.x"}, setcap(0), add("h4"), add("h5"), setcap(1), add("h6"), setcap(-2), add("h7")}}},
+		{"capacity-lowered", c12Hist{Cap: 0, Ops: []c12Op{add("h4"), add("h6"), add("h8"), add("h2"), setcap(2), {Kind: "remove", Hashes: []string{"h4", "h6", "h8", "h2"}}}}},
+		// fixed finding C12-stale-writeback-drops-tags (12d489e): tags merged while a handshake refreshes the staple stay
+		{"stale-writeback-tags", c12Hist{Cap: 0, Ops: []c12Op{add("h2", "t1"), {Kind: "hsmaint", Cert: staleT, Inner: &c12Op{Kind: "add", Cert: c12P("h2", "t5")}}, {Kind: "renewmaint"}}}},
+		{"stale-writeback-tags", c12Hist{Cap: 0, Ops: []c12Op{add("h2", "t1"), {Kind: "hsmaint", Cert: staleT, Inner: &c12Op{Kind: "ari", Cert: c12P("h2")}}, {Kind: "ocspmaint", Inner: &c12Op{Kind: "add", Cert: c12P("h2", "t6")}}}}},
+		// Stop; the maps stay and can still be operated on
+		{"corpus", c12Hist{Cap: 2, Ops: []c12Op{add("h2"), {Kind: "stop"}, add("h3", "t1"), {Kind: "remove", Hashes: []string{"h2"}}, {Kind: "query", Name: "q.x"}, add("h1"), add("h4")}}},
+		// the renewal pass sees the tags merged so far, also those merged right after its scan
+		{"corpus", c12Hist{Cap: 0, Ops: []c12Op{add("h2", "t1"), add("h3", "t2"), add("h1"), add("h2", "t3"), {Kind: "renewmaint", Inner: &c12Op{Kind: "add", Cert: c12P("h3", "t5")}}, {Kind: "renewmaint"}, {Kind: "ocspmaint"}}}},
 	}
 	for _, c := range corpus {
 		if err := env.runHist(w, c.h, c.class); err != nil {
@@ -867,9 +1340,10 @@ func runC12(tier string, seed int64, outdir string, replay string) error {
 	}
 	// ---- exhaustive: every history up to a length over the small alphabet ----
 	alpha := c12Alphabet()
-	maxLen, caps, nRand := 2, []int{0, 1, 2, 3}, 3000
+	maxLen, caps, nRand, nSampled := 2, []int{0, 1, 2, 3}, 2500, 2000
 	if tier == "thorough" {
-		maxLen, nRand = 3, 12000
+		maxLen, nRand, nSampled = 3, 12000, 0
+		caps = []int{0, 1, 2}
 	}
 	count := 0
 	var rec func(prefix []c12Op, n int, capacity int) error
@@ -896,18 +1370,15 @@ func runC12(tier string, seed int64, outdir string, replay string) error {
 		}
 	}
 	w.Meta.Exhaustive = true
-	w.Meta.Universe = fmt.Sprintf("all %d histories of length 1..%d over a %d-operation alphabet (adds with/without tags, removals by copy / hash (known, unknown, empty, repeated) / subject, replacements, the three write-back paths with and without an interleaved removal) on 4 pool certificates with overlapping and repeated names, for each capacity in %v", count, maxLen, len(alpha), caps)
+	w.Meta.Universe = fmt.Sprintf("all %d histories of length 1..%d over a %d-operation alphabet (adds with/without tags, removals by copy / hash (known, unknown, empty, repeated) / subject, replacements, the three write-back paths and the renewal pass with and without an interleaved removal / re-add with new tags / other write-back, SetOptions with capacity 0, 1, 2, -3, AllMatchingCertificates, Stop) on 4 pool certificates with overlapping and repeated names, for each initial capacity in %v", count, maxLen, len(alpha), caps)
 	// quick tier: length-3 histories, sampled (not claimed exhaustive)
-	r := rand.New(rand.NewSource(seed))
-	if tier != "thorough" {
-		for i := 0; i < 3000; i++ {
-			h := c12Hist{Cap: 1 + r.Intn(2)}
-			for k := 0; k < 3; k++ {
-				h.Ops = append(h.Ops, alpha[r.Intn(len(alpha))])
-			}
-			if err := env.runHist(w, h, "sampled-len3"); err != nil {
-				return err
-			}
+	for i := 0; i < nSampled; i++ {
+		h := c12Hist{Cap: r.Intn(3)}
+		for k := 0; k < 3; k++ {
+			h.Ops = append(h.Ops, alpha[r.Intn(len(alpha))])
+		}
+		if err := env.runHist(w, h, "sampled-len3"); err != nil {
+			return err
 		}
 	}
 	// ---- random longer histories over the full pool, with stale copies and interleavings ----
@@ -917,21 +1388,173 @@ func runC12(tier string, seed int64, outdir string, replay string) error {
 			return err
 		}
 	}
-	// ---- free-running goroutines (supporting: the lock discipline assumed by the model) ----
 	nStress := 40
 	if tier == "thorough" {
-		nStress = 400
+		nStress = 300
 	}
-	for i := 0; i < nStress; i++ {
-		if err := env.runHist(w, c12StressHist(r), "concurrent"); err != nil {
-			return err
-		}
+	if err := stress(r, nStress); err != nil {
+		return err
+	}
+	if tier == "thorough" {
+		c12RacePhase(w, seed)
 	}
 	w.Meta.Notes = append(w.Meta.Notes, "pool: "+strings.TrimSpace(fmt.Sprint(c12PoolDef)))
-	det := strings.Join(env.panics, "; ")
-	if len(det) > 400 {
-		det = det[:400]
-	}
-	w.Meta.Oracles = append(w.Meta.Oracles, emit.OracleCheck{Name: "no cache operation panicked", OK: len(env.panics) == 0, Detail: det})
+	finish()
 	return nil
+}
+
+// c12HashOracle validates, on the REAL hash function, the assumption the model makes about hashes
+// ("a hash determines the certificate, hence its names; no hash is empty"): real certificates are
+// cached through Config.CacheUnmanagedTLSCertificate, which returns the hash it computed.  Distinct
+// DER chains must get distinct hashes, the same chain the same hash, never "", each equal to
+// blake3 over the concatenated DER computed here with github.com/zeebo/blake3 directly; and the
+// cache must hold one entry per distinct chain whose Names are the leaf's names.
+func c12HashOracle(w *emit.Writer) error {
+	backend := doubles.NewMemBackend()
+	cfg, cache := doubles.NewConfig(backend.Handle("c12-hash"), certmagic.Config{}, certmagic.CacheOptions{})
+	defer cache.Stop()
+	ca := doubles.NewCA("c12 hash CA")
+	type item struct {
+		tc    tls.Certificate
+		names []string
+	}
+	var items []item
+	for i, names := range [][]string{{"one.example"}, {"one.example"}, {"two.example", "*.two.example"}, {"three.example", "one.example"}} {
+		chainPEM, leaf, keyPEM, err := ca.Leaf(doubles.LeafOpts{Names: names})
+		if err != nil {
+			return err
+		}
+		tc, err := tls.X509KeyPair(chainPEM, keyPEM)
+		if err != nil {
+			return err
+		}
+		tc.Leaf = leaf
+		items = append(items, item{tc, names})
+		if i == 0 {
+			// the same leaf without the issuer certificate: a different chain
+			short := tc
+			short.Certificate = tc.Certificate[:1]
+			items = append(items, item{short, names})
+		}
+	}
+	var bad []string
+	byHash := map[string]string{} // hash -> DER chain (as string)
+	for round := 0; round < 2; round++ {
+		for i, it := range items {
+			h, err := cfg.CacheUnmanagedTLSCertificate(context.Background(), it.tc, []string{fmt.Sprintf("r%d", round)})
+			if err != nil {
+				return fmt.Errorf("CacheUnmanagedTLSCertificate: %v", err)
+			}
+			der := string(bytes.Join(it.tc.Certificate, nil))
+			hh := blake3.New()
+			for _, c := range it.tc.Certificate {
+				hh.Write(c)
+			}
+			if want := fmt.Sprintf("%x", hh.Sum(nil)); h != want {
+				bad = append(bad, fmt.Sprintf("item %d: hash %q, blake3 of the DER chain %q", i, h, want))
+			}
+			if h == "" {
+				bad = append(bad, fmt.Sprintf("item %d: empty hash", i))
+			}
+			if prev, ok := byHash[h]; ok && prev != der {
+				bad = append(bad, fmt.Sprintf("item %d: two different chains share hash %q", i, h))
+			}
+			byHash[h] = der
+		}
+	}
+	if len(byHash) != len(items) {
+		bad = append(bad, fmt.Sprintf("%d distinct chains got %d distinct hashes", len(items), len(byHash)))
+	}
+	keys, certs, _ := cache.VerifSnapshot()
+	if len(keys) != len(items) {
+		bad = append(bad, fmt.Sprintf("%d distinct chains cached (twice each) gave %d cache entries", len(items), len(keys)))
+	}
+	for _, ci := range certs {
+		found := false
+		for _, it := range items {
+			hh := blake3.New()
+			for _, c := range it.tc.Certificate {
+				hh.Write(c)
+			}
+			if fmt.Sprintf("%x", hh.Sum(nil)) == ci.Hash {
+				found = true
+				if strings.Join(ci.Names, ",") != strings.Join(it.names, ",") {
+					bad = append(bad, fmt.Sprintf("hash %s cached with names %v, leaf has %v", ci.Hash[:8], ci.Names, it.names))
+				}
+				if strings.Join(ci.Tags, ",") != "r0,r1" {
+					bad = append(bad, fmt.Sprintf("hash %s: tags %v after caching twice with r0 then r1", ci.Hash[:8], ci.Tags))
+				}
+			}
+		}
+		if !found {
+			bad = append(bad, "cached hash "+ci.Hash+" is not the hash of any chain cached")
+		}
+	}
+	w.Meta.Oracles = append(w.Meta.Oracles, emit.OracleCheck{
+		Name:   "the real certificate hash (Config.CacheUnmanagedTLSCertificate) is blake3 of the DER chain: equal chains equal hashes, distinct chains distinct hashes, never empty, one cache entry per chain with the leaf's names",
+		OK:     len(bad) == 0,
+		Detail: fmt.Sprintf("%d chains cached twice; %s", len(items), strings.Join(bad, "; "))})
+	return nil
+}
+
+// c12RacePhase (thorough tier): build this harness with the race detector and run it in the mode
+// that executes only the concurrent histories (free goroutines doing every cache operation,
+// SetOptions, AllMatchingCertificates, handshake lookups through Config.GetCertificate, with the
+// cache's own maintenance goroutine running its passes every millisecond).  A "DATA RACE" report
+// or a crash fails an oracle check; if a race build is impossible here that is recorded as a note.
+func c12RacePhase(w *emit.Writer, seed int64) {
+	note := func(s string) {
+		w.Meta.Notes = append(w.Meta.Notes, "race phase: "+s)
+		w.Meta.Oracles = append(w.Meta.Oracles, emit.OracleCheck{Name: "race-detector build of the concurrent phase could be run (note only)", OK: true, Detail: s})
+	}
+	root := os.Getenv("VERIF_ROOT")
+	if root == "" {
+		note("VERIF_ROOT not set; skipped")
+		return
+	}
+	tmp, err := os.MkdirTemp("", "c12race")
+	if err != nil {
+		note("no temp dir: " + err.Error())
+		return
+	}
+	defer os.RemoveAll(tmp)
+	exe := filepath.Join(tmp, "run-race")
+	build := exec.Command("go", "build", "-race", "-tags", "verif", "-o", exe, "./cmd/run")
+	build.Dir = filepath.Join(root, "harness")
+	build.Env = append(os.Environ(), "CGO_ENABLED=1", "GOFLAGS=-mod=mod", "GOPROXY=off", "GOSUMDB=off", "GOTOOLCHAIN=local")
+	if out, err := build.CombinedOutput(); err != nil {
+		o := string(out)
+		if len(o) > 300 {
+			o = o[len(o)-300:]
+		}
+		note("go build -race failed (not counted as a failure): " + strings.TrimSpace(o))
+		return
+	}
+	run := exec.Command(exe, "C12", "race", fmt.Sprint(seed+17), filepath.Join(tmp, "out"))
+	run.Env = append(os.Environ(), "GORACE=halt_on_error=0 exitcode=66")
+	done := make(chan struct{})
+	var out []byte
+	var rerr error
+	go func() { out, rerr = run.CombinedOutput(); close(done) }()
+	select {
+	case <-done:
+	case <-time.After(6 * time.Minute):
+		run.Process.Kill()
+		<-done
+		w.Meta.Oracles = append(w.Meta.Oracles, emit.OracleCheck{Name: "race detector: concurrent cache histories run without a data race report", OK: false, Detail: "race run did not finish within 6 minutes"})
+		return
+	}
+	o := string(out)
+	ok := rerr == nil && !strings.Contains(o, "DATA RACE")
+	det := "60 concurrent histories, no report"
+	if !ok {
+		if i := strings.Index(o, "WARNING: DATA RACE"); i >= 0 {
+			o = o[i:]
+		}
+		if len(o) > 1500 {
+			o = o[:1500]
+		}
+		det = fmt.Sprintf("%v: %s", rerr, o)
+	}
+	w.Meta.Oracles = append(w.Meta.Oracles, emit.OracleCheck{Name: "race detector: concurrent cache histories run without a data race report", OK: ok, Detail: det})
 }
